@@ -31,6 +31,7 @@ def scheme_term_scaled(pen, scale):
 
 
 class Scores(Suite):
+    names_rate, past_rate = 0.08, 0.08     # hostile element names / datasets with a past (gen.decorate_cases)
     name = "scores"
     imports = ["Scheme", "Rank", "KemenyImpl", "Judge.JC04"]
     judge = "judge_scores"
